@@ -127,6 +127,12 @@ def catalogue(al):
     add("sw", "modulo_counter stream modulo", lambda al, s, c: al.modulo_counter(0., S(s) + 3, .5))
     add("sw", "TableLookup call", lambda al, s, c: al.TableLookup([0., 1., 0., -1.])(S(s) * .1))
     add("sw", "sinusoid stream freq", lambda al, s, c: al.sinusoid(S(s) * .01))
+    # the start / phase given as a Stream (constant step): one item per output
+    add("sw", "modulo_counter stream start", lambda al, s, c: al.modulo_counter(S(s), 12., 1.))
+    add("sw", "modulo_counter stream start, small step", lambda al, s, c: al.modulo_counter(S(s), 5., .25))
+    add("sw", "sinusoid stream phase", lambda al, s, c: al.sinusoid(.25, phase=S(s)))
+    add("sw", "TableLookup stream phase", lambda al, s, c: al.TableLookup([0., 1., 0., -1.])(.3, phase=S(s) * .1))
+    add("sw", "modulo_counter all streams", lambda al, s, c: al.modulo_counter(S(s), S(7.), S(.5)))
     add("sw", "zero_pad(0,0)", lambda al, s, c: S(al.zero_pad(s)))
     # ---- blocks ----------------------------------------------------------------------------------
     add("blocks", "blocks()", lambda al, s, c: (list(b) for b in al.blocks(s, c["a"], c["b"])))
